@@ -445,6 +445,48 @@ static void dispatch(const std::string& op, vh::Reader& r, vh::Out& o)
 		put_wavg(o, dw);
 		put_wavg(o, dr);
 	}
+	// ---- translation law of Weighted_Average: the data, and the data with every value shifted by t
+	else if(op == "wshift")
+	{
+		long n = r.integer();
+		std::vector<DataPoint> d, ds;
+		for(long j = 0; j < n; j++)
+		{
+			double v = r.num(), w = r.num();
+			d.push_back(DataPoint(v, w));
+		}
+		double t = r.num();
+		for(auto& e : d)
+			ds.push_back(DataPoint(e.value + t, e.weight));
+		put_wavg(o, d);
+		put_wavg(o, ds);
+	}
+	// ---- an object history: one vector handed to a sequence of statistics calls (0 mean, 1 variance, 2 standard deviation, 3 median);
+	// the answers in the order of the calls, then the vector as the calls left it (sorted when a Median call was among them:
+	// which permutation std::nth_element leaves is unspecified)
+	else if(op == "history")
+	{
+		auto l	 = r.list();
+		auto ops = r.ilist();
+		bool med = false;
+		for(long c : ops)
+		{
+			if(c == 0)
+				o.f(Arithmetic_Mean(l));
+			else if(c == 1)
+				o.f(Variance(l));
+			else if(c == 2)
+				o.f(Standard_Deviation(l));
+			else
+			{
+				o.f(Median(l));
+				med = true;
+			}
+		}
+		if(med)
+			std::sort(l.begin(), l.end());
+		o.fl(l);
+	}
 	else
 		o.w("HARNESSERR unknown_op");
 }
